@@ -794,10 +794,21 @@ package url
 //@   loop 1 step prev(state) == StateOpaquePath ==> (r == 0x3F ? (state == StateQuery && input.pointer == prev(input.pointer) + 1) : (r == 0x23 ? (state == StateFragment && input.pointer == prev(input.pointer) + 1) : (state == StateOpaquePath && input.pointer == prev(input.pointer) + 1)))   [C01,C05 state-transition]
 //@   loop 1 step prev(state) == StateQuery ==> ((!stateOverridden && r == 0x23) ? (state == StateFragment && input.pointer == prev(input.pointer) + 1) : (state == StateQuery && input.pointer == prev(input.pointer) + 1))   [C01,C05 state-transition]
 //@   loop 1 step prev(state) == StateFragment ==> (state == StateFragment && input.pointer == prev(input.pointer) + 1)   [C01,C05 state-transition]
+//@   loop 1 step (prev(state) == StateAuthority && r == 0x40) ==> (atFlag && bufv(buffer) == ""
+//@            && passwordTokenSeenFlag == specCredFlag(runesOf((prev(atFlag) ? "%40" + prev(bufv(buffer)) : prev(bufv(buffer)))), runeCount((prev(atFlag) ? "%40" + prev(bufv(buffer)) : prev(bufv(buffer)))), prev(passwordTokenSeenFlag)))   [C01 authority-credentials]
+//@   loop 1 step (prev(state) == StateAuthority && r == 0x40 && p.opts.encodingOverride == nil) ==> (
+//@            url.username == specCredU(runesOf((prev(atFlag) ? "%40" + prev(bufv(buffer)) : prev(bufv(buffer)))), runeCount((prev(atFlag) ? "%40" + prev(bufv(buffer)) : prev(bufv(buffer)))), prev(url.username), prev(passwordTokenSeenFlag), bsBits(UserInfoPercentEncodeSet.bs), UserInfoPercentEncodeSet.allBelow)
+//@            && url.password == specCredP(runesOf((prev(atFlag) ? "%40" + prev(bufv(buffer)) : prev(bufv(buffer)))), runeCount((prev(atFlag) ? "%40" + prev(bufv(buffer)) : prev(bufv(buffer)))), prev(url.password), prev(passwordTokenSeenFlag), bsBits(UserInfoPercentEncodeSet.bs), UserInfoPercentEncodeSet.allBelow))   [C01 authority-credentials]
+//@   loop 1 step (prev(state) == StateAuthority && r != 0x40) ==> (url.username == prev(url.username) && url.password == prev(url.password))   [C01 authority-credentials]
 //@   loop 1 decreases specRank(state), input.length - input.pointer
 //@   loop 2 modifies url.username, url.password, bb.pointer, bb.eof
 //@   loop 2 invariant cur(bb) && fresh(bb) && bb != input && url != nil
 //@   loop 2 invariant bb.eof || c == bb.runes[bb.pointer]
+//@   loop 2 invariant 0 <= bb.pointer && off(bb.runes) == 0 && (bb.eof ==> bb.pointer == bb.length)
+//@   loop 2 invariant bb.s == bufv(buffer) && content(bb.runes) == runesOf(bb.s) && bb.length == runeCount(bb.s) && bufv(buffer) == pre(bufv(buffer))
+//@   loop 2 invariant passwordTokenSeenFlag == specCredFlag(content(bb.runes), bb.pointer, pre(passwordTokenSeenFlag))
+//@   loop 2 invariant p.opts.encodingOverride == nil ==> url.username == specCredU(content(bb.runes), bb.pointer, pre(url.username), pre(passwordTokenSeenFlag), bsBits(UserInfoPercentEncodeSet.bs), UserInfoPercentEncodeSet.allBelow)
+//@   loop 2 invariant p.opts.encodingOverride == nil ==> url.password == specCredP(content(bb.runes), bb.pointer, pre(url.password), pre(passwordTokenSeenFlag), bsBits(UserInfoPercentEncodeSet.bs), UserInfoPercentEncodeSet.allBelow)
 //@   loop 2 decreases bb.length - bb.pointer
 
 // ---------------------------------------------------------------------------------------------------------------
